@@ -103,7 +103,7 @@ def same_field(a, b):
 class C18(Check):
     ID = 'C18'
     LEVEL = 'exploration'
-    BUDGET = {'quick': 30, 'thorough': 240}
+    BUDGET = {'quick': 75, 'thorough': 240}
     RULE = ('case = (1..8 typed columns, separator from {, ; | tab || :: ", "}, escape char \\ or ^, row-set spec (count, string class, '
             'float class, data seed), transport stream|file, file encoding None|utf-8). String classes: plain, blanks at any position incl. '
             'first/last, double quotes, escape chars, separators, unicode, adversarial mix of all (no \\n/\\r); float classes: special values '
@@ -135,7 +135,7 @@ class C18(Check):
         fkinds = ['special', 'bits', 'decimal', 'digits17', 'integral', 'mixed']
         file_every = max(1, n // nfiles) if tier == 'quick' else 700
         for k in range(n):
-            if k % 600 == 300:
+            if k % 600 == 30:
                 yield {'cols': ['str', 'int', 'str'], 'sep': SEPS[(k // 600) % len(SEPS)], 'esc': ESCS[(k // 600) % 2],
                        'rows': {'n': rng.choice([1, 3]), 'skind': 'huge', 'fkind': 'special', 'rseed': rng.randrange(1 << 30)},
                        'mode': ('stream', 'file')[(k // 1200) % 2], 'encoding': (None, 'utf-8')[(k // 2400) % 2]}
